@@ -25,6 +25,13 @@ THEOREMS = [
     'Vakt.C05.cidr_contains_iff', 'Vakt.C05.cidr_version_mismatch', 'Vakt.C05.inq_match_field', 'Vakt.C05.inq_match_attr', 'Vakt.C05.inq_none',
     'Vakt.Re.accepts_iff', 'Vakt.Re.matchesPrefix_iff', 'Vakt.Re.acceptsDollar_iff',
 ]
+# the rule bodies translated from /repo/vakt/rules/*.py in this run (harness/pytolean.py -> lean/Gen/Rules.lean) are the
+# model's rules: one theorem per translated rule (lean/Gen/Equiv.lean), built as a separate target
+EXTRA_BUILD = ['Gen']
+GEN_IMPORTS = ['Gen.Equiv']
+GEN_THEOREMS = ['Vakt.GenEquiv.gen_' + n for n in (
+    'Eq', 'NotEq', 'Greater', 'Less', 'GreaterOrEqual', 'LessOrEqual', 'In', 'NotIn', 'AllIn', 'AllNotIn', 'AnyIn', 'AnyNotIn',
+    'Truthy', 'Falsy', 'Any', 'Neither', 'Equal', 'StartsWith', 'EndsWith', 'Contains')] + ['Vakt.GenEquiv.translated_covers']
 FLOOR = {'quick': 500, 'thorough': 5000}
 ASSUMPTIONS = [
     'RegexMatch outside the modelled regex subset, str() of float/list/dict, non-str CIDR arguments, '
